@@ -521,3 +521,11 @@ package diff
 //@ loop 2 step !vs_has(op2Responses, code1) ==> len(sd.Diffs) == old(len(sd.Diffs))+1 && sd.Diffs[len(sd.Diffs)-1].Code == DeletedResponse && sd.Diffs[len(sd.Diffs)-1].DifferenceLocation.Response == code1 && (code1 > 0 ==> sd.Diffs[len(sd.Diffs)-1].Compatibility == Breaking)
 //@ loop 5 step vs_has(op2Response.ResponseProps.Headers, op1HeaderName) ==> len(sd.Diffs) == old(len(sd.Diffs))
 //@ loop 5 step !vs_has(op2Response.ResponseProps.Headers, op1HeaderName) ==> len(sd.Diffs) == old(len(sd.Diffs))+1 && sd.Diffs[len(sd.Diffs)-1].Code == DeletedResponseHeader && sd.Diffs[len(sd.Diffs)-1].DifferenceLocation.Response == code2 && (code2 > 0 ==> sd.Diffs[len(sd.Diffs)-1].Compatibility == Breaking)
+
+//@ func (*SpecAnalyser).analyseRequestParams
+//@ props C13 C14
+//@ requires sd != nil
+//@ loop 3 step vs_has(params2, paramName1) ==> len(sd.Diffs) == old(len(sd.Diffs))
+//@ loop 3 step !vs_has(params2, paramName1) ==> len(sd.Diffs) == old(len(sd.Diffs))+1 && sd.Diffs[len(sd.Diffs)-1].DifferenceLocation.Response == 0 && sd.Diffs[len(sd.Diffs)-1].Code == vs_deletedParamCode(param1.Required)
+//@ loop 4 step !vs_has(params1, paramName2) ==> len(sd.Diffs) == old(len(sd.Diffs))+1 && sd.Diffs[len(sd.Diffs)-1].DifferenceLocation.Response == 0 && sd.Diffs[len(sd.Diffs)-1].Code == vs_addedParamCode(param2.Required) && (param2.Required ==> sd.Diffs[len(sd.Diffs)-1].Compatibility == Breaking)
+//@ loop 4 step vs_has(params1, paramName2) ==> vs_called("compareParams") && len(sd.Diffs) >= old(len(sd.Diffs))
